@@ -201,7 +201,12 @@ def shard_accessor(spec, R):
         ny, nx = int(rng.integers(1, 3)), int(rng.integers(1, 3))
         cube = np.stack([np.stack([np.roll(x, int(rng.integers(0, n))) for _ in range(nx)]) for _ in range(ny)]).astype(np.int16)
         time = pd.Timestamp("2001-01-01") + pd.to_timedelta(pos, unit="D")
-        da = xr.DataArray(cube, dims=["y", "x", "time"], coords={"time": time}, attrs={"nodata": -3000})
+        # the statement knows no placeholder: every int16 observation counts, whatever attributes the cube carries
+        # (no attribute / a value that never occurs / a value the series hits once / the value of a whole constant pixel)
+        akind = it % 4
+        attrs = [{}, {"nodata": -3000}, {"nodata": int(cube[0, 0, int(rng.integers(0, n))])}, {"nodata": int(cube[-1, -1, 0]), "scale_factor": 0.0001}][akind]
+        R.count(f"accessor_attrs_{['none', 'unused_value', 'value_in_series', 'value_in_series_2'][akind]}")
+        da = xr.DataArray(cube, dims=["y", "x", "time"], coords={"time": time}, attrs=attrs)
         order = [("y", "x", "time"), ("time", "y", "x")][it % 2]
         res = da.transpose(*order).hdc.whit.whitint(labels, template)
         nlab = np.unique(labels).size
